@@ -59,11 +59,12 @@ class Unit:
 
 class LL:
     """a file of /repo compiled by clang to IR and translated by ll2c"""
-    def __init__(self, path, lang='c', opt='-O1', flags=(), ct=False, defs=None, prefix='ll_'):
+    def __init__(self, path, lang='c', opt='-O1', flags=(), ct=False, defs=None, prefix='ll_', export=(), rename=None):
         self.path = path; self.lang = lang; self.opt = opt; self.flags = tuple(flags)
         self.ct = ct; self.defs = dict(defs or {}); self.prefix = prefix
+        self.export = tuple(export); self.rename = dict(rename or {})
     def key(self): return ('L', self.path, self.lang, self.opt, self.flags, self.ct,
-                           tuple(sorted(self.defs.items())), self.prefix)
+                           tuple(sorted(self.defs.items())), self.prefix, self.export, tuple(sorted(self.rename.items())))
 
 
 def dflags(d):
@@ -169,12 +170,14 @@ class Runner:
         rc, out, _, _, _ = sh(cmd, timeout=300)
         if rc != 0:
             raise BuildError('clang failed for %s:\n%s' % (l.path, out[-3000:]))
-        try:
-            tag = re.sub(r'\W', '_', os.path.basename(l.path)) + '_' + h[:6]
-            csrc, info = ll2c.translate_file(base + '.ll', tag=tag, prefix=l.prefix, ct=l.ct)
-        except ll2c.Unsupported as e:
-            raise BuildError('ll2c: unsupported construct in %s: %s' % (l.path, e))
-        with open(base + '.c', 'w') as f: f.write(csrc)
+        tag = re.sub(r'\W', '_', os.path.basename(l.path))
+        cmd = [sys.executable, os.path.join(VERIF, 'vlib', 'll2c.py'), base + '.ll', base + '.c', base + '.json',
+               '--prefix', l.prefix, '--tag', tag, '--export', ','.join(l.export),
+               '--rename', ','.join('%s=%s' % kv for kv in sorted(l.rename.items()))] + (['--ct'] if l.ct else [])
+        rc, out, _, _, _ = sh(cmd, timeout=300)
+        if rc != 0:
+            raise BuildError('ll2c: cannot translate %s (inconclusive, never success): %s' % (l.path, out[-1500:]))
+        info = json.load(open(base + '.json'))
         obj = base + '.o'
         cmd = ['goto-cc', '-std=gnu99', '-I' + os.path.join(VERIF, 'harness'), '-c', base + '.c', '-o', obj] + \
               (['-DCT_MODE'] if l.ct else [])
